@@ -23,8 +23,9 @@ def confirm(mdir, sid, prop):
     res = {}
     try:
         shutil.copy(os.path.join(mdir, "demo.rs"), os.path.join(wt, "tests", "zz_seed_demo.rs"))
-        rc, out = sh(env + "cargo test --offline --test zz_seed_demo 2>&1 | tail -30", cwd=wt)
-        res["demo_on_head"] = "pass" if "test result: ok" in out and "FAILED" not in out else "FAIL"
+        rc, out = sh(env + "cargo test --offline --test zz_seed_demo 2>&1", cwd=wt)
+        out = out[-3000:]
+        res["demo_on_head"] = "pass" if rc == 0 and "test result: ok" in out else "FAIL"
         res["demo_on_head_tail"] = out[-600:]
         rc, out = sh("git apply %s" % os.path.join(mdir, "patch.diff"), cwd=wt)
         assert rc == 0, out
@@ -33,8 +34,9 @@ def confirm(mdir, sid, prop):
         res["suite_with_patch"] = "pass" if "FAILED" not in out and "error" not in out and "test result: ok" in out else "FAIL"
         res["suite_with_patch_summary"] = out[-800:]
         shutil.copy(os.path.join(mdir, "demo.rs"), os.path.join(wt, "tests", "zz_seed_demo.rs"))
-        rc, out = sh(env + "timeout 600 cargo test --offline --test zz_seed_demo 2>&1 | tail -30", cwd=wt)
-        res["demo_with_patch"] = "fail (as required)" if ("FAILED" in out or "panicked" in out or rc != 0) and "test result: ok" not in out.split("Running")[-1] else "PASSES (not a mutant)"
+        rc, out = sh(env + "timeout 900 cargo test --offline --test zz_seed_demo 2>&1", cwd=wt)
+        out = out[-3000:]
+        res["demo_with_patch"] = "fail (as required)" if rc != 0 else "PASSES (not a mutant)"
         res["demo_with_patch_tail"] = out[-800:]
     finally:
         sh("git -C %s worktree remove --force %s" % (REPO, wt))
